@@ -143,3 +143,5 @@ let run (path : string) =
     ) lines;
   end_case ();
   finish ~cases:!cases ~steps:!steps ~nontrivial:!nontrivial
+
+let () = Conv.register "C17" run
